@@ -432,7 +432,12 @@ class TieCheck:
                         stats = json.load(open(os.path.join(casedir, "stats.json")))
                     except Exception:
                         stats = {}
-                    if ok:
+                    corr_ok = ok
+                    if not ok:
+                        # a proof no longer builds: the model / correspondence files may still build on
+                        # their own, and evaluating the cases is what yields a concrete failing input
+                        corr_ok, _lg = coq_build(self.area, targets=list(self.coq_targets or ["Corr.vo"]))
+                    if corr_ok:
                         results, errs = eval_cases(casedir, self.area)
                         for k, e in errs:
                             problems.append(("case-eval", "shard %d: %s" % (k, e)))
